@@ -170,7 +170,7 @@ CHECKS = {
                        "(map stand-in for the HashMap); c13_one_*: MultiRecordLog::resource_usage() after every call equals that sum and never exceeds the allocated bytes."),
         "level_note": "trusted: kani-compiler, CBMC, CaDiCaL, reference queue; per-record constant obtained from a one-record queue",
         "filters": ["c16_", "c18_iso_q", "c13_one"],
-        "quick": {"harnesses": [("real", "c16_size_q*"), ("real", "c16_big_q*"), ("real", "c18_iso_q_00*"), ("real", "c13_one_q_00[0-2]")], "jobs": 14, "timeout": 1200},
+        "quick": {"harnesses": [("real", "c16_size_q*"), ("real", "c16_big_q*"), ("real", "c18_iso_q_00*"), ("real", "c13_one_q_00[0-3]")], "jobs": 14, "timeout": 1200},
         "thorough": {"harnesses": [("real", "c16_size*"), ("real", "c16_big_*"), ("real", "c18_iso_q_0*")], "jobs": 16, "timeout": 2400},
         "rule": "case = one script over appends of 0/2/3 (thorough 0..3) bytes and truncations at first / middle / far future; size and capacity compared after each step",
         "samples": ["c16_size_q_010: scripts 90..98 of 6^3", "c16_big_q_1_16: payloads of 1 and 16 symbolic bytes, truncated one by one (evicting < 1/8 of the buffer)"],
@@ -212,7 +212,7 @@ CHECKS = {
                        "entries written by garbage collection, and is 0 for no-op and rejected calls."),
         "level_note": "trusted: kani-compiler, CBMC, CaDiCaL; checksum oracle stub; cursor-only block device CurW; Serializable producing n zero bytes",
         "filters": ["c15_real", "c07_rt_qf", "c06_gc", "c13_one"],
-        "quick": {"harnesses": [("real", "c15_real_q*"), ("real", "c15_real_frame_q"), ("16", "c07_rt_qf*"), ("real", "c06_gc_q*"), ("real", "c06_gc2_q*"), ("real", "c13_one_q_0*")], "jobs": 14, "timeout": 1200},
+        "quick": {"harnesses": [("real", "c15_real_q*"), ("real", "c15_real_frame_q"), ("16", "c07_rt_qf*"), ("real", "c06_gc_q*"), ("real", "c13_one_q_00[0-6]")], "jobs": 14, "timeout": 1200},
         "thorough": {"harnesses": [("real", "c15_real_*"), ("16", "c07_rt_qf*"), ("real", "c06_gc*"), ("real", "c13_one_q_0*")], "jobs": 8, "timeout": 3000, "solvers": ["cadical"]},
         "rule": ("real geometry: one query with symbolic (start, len); small geometry: 18 (alignment, length, follower) cases with real bytes; "
                  "non-trivial witnesses are cover properties (>= 4 frames, padding, empty first frame, exact block end, empty entry)"),
@@ -284,9 +284,9 @@ CHECKS = {
                        "truncation of it is either rejected or a whole number of leading items. That append_records puts the whole batch "
                        "into ONE entry and applies it after the write is MultiRecordLog glue and not claimed."),
         "level_note": "trusted: kani-compiler, CBMC, CaDiCaL; ideal-checksum oracle; from_utf8 stub; forking cases cut one call after the failure (B18)",
-        "filters": ["c12_", "c08_crc_", "c13_one_q_003"],
+        "filters": ["c12_", "c08_crc_", "c13_one_q_006"],
         "codegen_groups": {"16": [["c08_crc_"], ["c12_"]]},
-        "quick": {"harnesses": [("16", "c12_ent_*_q*"), ("16", "c12_cut_q*"), ("16", "c08_crc_*_q*"), ("real", "c12_batch_q*"), ("real", "c13_one_q_003")], "jobs": 14, "timeout": 1500},
+        "quick": {"harnesses": [("16", "c12_ent_*_q*"), ("16", "c12_cut_q*"), ("16", "c08_crc_*_q*"), ("real", "c12_batch_q*"), ("real", "c13_one_q_006")], "jobs": 14, "timeout": 1500},
         "thorough": {"harnesses": [("16", "c12_ent_*"), ("16", "c12_big_*"), ("16", "c12_cut_*"), ("real", "c12_batch_*")], "jobs": 8, "timeout": 3600, "mem_gb": 16},
         "rule": "case = (frame of the large entry, damage kind, variant) or (cut offset) or (batch shape, truncation point); counted from the symex log",
         "samples": ["c12_ent_len_q_a_f3: lengths (5,20,1): entry 1 = First+Middle+Last; Last frame: length -> 0, 1, 3, 16, 0xffff",
@@ -350,7 +350,7 @@ CHECKS = {
                        "Restarts and crash recovery are not claimed."),
         "level_note": "trusted: kani-compiler, CBMC, CaDiCaL; the 60-line association-list stand-in for HashMap (src/lib.rs verif_map, guarded); operations are only issued to queues that exist (an Err(MissingQueue) value makes symex fork on a garbage reference, DESIGN B17)",
         "filters": ["c18_", "c06_gc2"],
-        "quick": {"harnesses": [("real", "c18_iso*_q*"), ("real", "c06_gc2*_q*")], "jobs": 14, "timeout": 1200},
+        "quick": {"harnesses": [("real", "c18_iso*_q*"), ("real", "c06_gc2_q*")], "jobs": 14, "timeout": 1200},
         "thorough": {"harnesses": [("real", "c18_iso*"), ("real", "c06_gc2*")], "jobs": 16, "timeout": 2400},
         "rule": "case = one script over [create a, delete a, append a, truncate a, create b, delete b, append b, truncate b] (base-8 digits); after each step both queues are observed; counted from the symex log",
         "samples": ["c18_iso_q_002: scripts 16..23 of 8^2 (append a followed by each of the eight operations)", "c18_iso3_q_003: scripts 152..159 of 8^3"],
@@ -376,13 +376,13 @@ CHECKS = {
         "thorough": {"harnesses": [("real", "c13_one_q*"), ("real", "c13_two_*")], "jobs": 16, "timeout": 3000},
         "rule": ("case = one script of 1 or 2 calls over [create a, append a None / future / last (no-op) / older (Past) / empty batch / batch of 2, truncate a first / future, "
                  "create bq, append bq]; after every call the cursor, the outcome and all observables are compared with the model; counted from the symex log"),
-        "samples": ["c13_one_q_002: scripts 4..5 of 11: append(Some(last-1)) -> Past, cursor unchanged; empty batch -> Ok(None, 0 bytes)",
-                    "c13_two_q_004: scripts 45..47 of 121: append(Some(last)) [no-op] followed by append(None) / future / last"],
+        "samples": ["c13_one_q_004: script 4 of 11: append(Some(last-1)) -> Past, cursor unchanged", "c13_one_q_005: empty batch -> Ok(None, 0 bytes)",
+                    "c13_two_q_012: script 45 of 121: append(Some(last)) [no-op] followed by append(Some(next+2))"],
         "functions": ["multi_record_log::MultiRecordLog::{create_queue,delete_queue,append_record,append_records,truncate,run_gc_if_necessary,record_empty_queues_position,persist,persist_on_policy,range,last_position,queue_exists,list_queues,resource_usage}",
                       "mem::queues::MemQueues::* (map stand-in)", "recordlog::writer::RecordWriter::write_record", "frame::writer::FrameWriter::write_frame",
                       "rolling::directory::{RollingWriter::{write (non-rolling path),persist,current_file,size}, Directory::{has_files_that_can_be_deleted,gc}}", "rolling::file_number::FileTracker::*",
                       "record::{MultiPlexedRecord::serialize, MultiRecord::{serialize,new_unchecked,next}}", "persist_policy::PersistState::{should_persist,update_persisted}"],
-        "bounds": {"quick": {"queues": 2, "files": 3, "script_length": "1 (all 11), 2 (33 of 121: a no-op / rejected call first)"}, "thorough": {"script_length": "2 (all 121)"}},
+        "bounds": {"quick": {"queues": 2, "files": 3, "script_length": "1 (all 11), 2 (22 of 121: a no-op / Past call first)"}, "thorough": {"script_length": "2 (all 121)"}},
         "outside": ["calls on missing queues (MissingQueue errors)", "effect after a restart (open/replay)", "roll-over, crash, persist policies other than Always(Flush)"],
         "assumptions": ["MultiRecordLog constructed through guarded hooks (no directory scan, no replay): three tracked files, writer on the last one at offset 1000, queues as a replay would have left them",
                         "I/O leaves stubbed: <File as Write>::write and File::sync_data return Ok, std::fs::remove_file returns Ok, Directory::sync_directory skipped (guarded hook), rolling::directory::filepath returns an empty path (format! is not executable); crc32 constant",
